@@ -108,11 +108,12 @@ class RuleView:
     list a clause of one property under another property that depends on it (floors stay active: a vanished anchor is an
     analysis error for every property that relies on it)."""
 
-    def __init__(self, ck: Checker, mapping: Dict[str, str], only_files=None, only_constructs=None):
+    def __init__(self, ck: Checker, mapping: Dict[str, str], only_files=None, only_constructs=None, not_constructs=None):
         self._ck = ck
         self._map = mapping
         self._only = tuple(only_files) if only_files else None      # keep only what is reported in these files (path prefixes)
         self._only_c = tuple(only_constructs) if only_constructs else None   # ... or about these constructs (substrings)
+        self._not_c = tuple(not_constructs) if not_constructs else None      # ... and nothing about these (substrings)
         self.ctx = ck.ctx
         self.prop_id = ck.prop_id
         self.tier = ck.tier
@@ -135,6 +136,8 @@ class RuleView:
                 target.clauses.setdefault(self._map[rule], text)
 
     def _here(self, a, k) -> bool:
+        if self._not_c is not None and any(x in str(a[0] if a else k.get("construct", "")) for x in self._not_c):
+            return False
         if self._only_c is not None:
             c = str(a[0] if a else k.get("construct", ""))
             if not any(x in c for x in self._only_c):
